@@ -13,6 +13,7 @@ pub mod consist_lab;
 pub mod dispatch_lab;
 pub mod pt_props;
 pub mod ptlab;
+pub mod res_lab;
 pub mod setspeed_lab;
 pub mod speedlimit_lab;
 pub mod train_props;
